@@ -40,6 +40,7 @@ type Frame struct {
 	params  []Value
 	loops   map[*ssa.BasicBlock]*loopInfo
 	names   map[string][]ssa.Value // debug names
+	lets    map[string]SpecVar
 }
 
 type loopInfo struct {
@@ -76,6 +77,7 @@ func (x *Exec) oblige(fnName, kind, label, text string, tags []string, pos strin
 	if Implies(guard, body).S == "true" {
 		return
 	}
+	x.autoUnfold(body.S, 2)
 	g := &Goal{Name: x.goalName(fnName, kind, label), Func: fnName, Kind: kind, Tags: tags, Text: text, Pos: pos}
 	x.C.AddGoal(g, guard, body)
 	x.C.Assume(guard, body)
@@ -356,6 +358,20 @@ func (x *Exec) execBody(fr *Frame, cond Term, st State, args []Value) (Term, Sta
 	for i, p := range fn.Params {
 		fr.vals[p] = args[i]
 	}
+	if fr.con != nil && len(fr.con.Lets) > 0 && len(fr.con.LoopInv) > 0 {
+		vars := map[string]SpecVar{}
+		for i, p := range fn.Params {
+			if sv, ok := x.specVarOf(args[i], "let"); ok {
+				vars[p.Name()] = sv
+			}
+		}
+		env := x.specEnv(fr.entrySt, fr.entrySt, vars)
+		x.bindLets(fr.con, env, fnKey(fn))
+		fr.lets = map[string]SpecVar{}
+		for _, l := range fr.con.Lets {
+			fr.lets[l.Name] = env.Vars[l.Name]
+		}
+	}
 	order := topoOrder(fn, fr.loops)
 	for _, b := range order {
 		if b == fn.Recover {
@@ -488,6 +504,9 @@ func (x *Exec) specVarOf(v Value, site string) (SpecVar, bool) {
 func (fr *Frame) loopVars(li *loopInfo, st State, phiVal func(*ssa.Phi) Value) map[string]SpecVar {
 	x := fr.x
 	vars := map[string]SpecVar{}
+	for k, v := range fr.lets {
+		vars[k] = v
+	}
 	// parameters
 	for i, p := range fr.fn.Params {
 		if sv, ok := x.specVarOf(fr.params[i], "inv"); ok {
@@ -657,6 +676,7 @@ func (x *Exec) cutLoop(fr *Frame, li *loopInfo, bc Term, st State) State {
 			if err != nil {
 				panic(fmt.Sprintf("contract error: %s loop %d invariant %s: %v", fnName, li.ordinal, cl.Label, err))
 			}
+			x.autoUnfold(t.S, 2)
 			x.C.Assume(bc, t)
 		}
 	}
